@@ -123,11 +123,23 @@ def private_key_from_int(d):
 
 
 def mk_authblock(b):
+    """The block object; half of the update / ECC blocks (chosen from the block's own data) are first constructed with OTHER values and get
+    their public attributes (config_security_code, version, key_selector) assigned afterwards - a block is what its attributes say when it is
+    written, not what it was constructed with."""
     if b["kind"] == "cust":
         return B2.InitCustKeyAuthBlock()
     if b["kind"] == "ecc":
+        if (b["sel"] + (b.get("priv") or 0)) % 2:
+            blk = B2.InitEccAuthBlock((b["sel"] + 1) % 4)
+            blk.key_selector = b["sel"]
+            return blk
         return B2.InitEccAuthBlock(b["sel"])
     if b["kind"] == "upd":
+        if (b["version"] + b["code"][-1]) % 2:
+            blk = B2.UpdateAuthBlock(bytes(x ^ 0x55 for x in b["code"]), (b["version"] + 1) % 256)
+            blk.config_security_code = b["code"]
+            blk.version = b["version"]
+            return blk
         return B2.UpdateAuthBlock(b["code"], b["version"])
     if b["kind"] == "unknown":
         return B2.UnknownAuthBlock(b["tag"], b["value"])
